@@ -576,9 +576,50 @@ func docStep(dc *docCase, api string, cfg string, form string, style int) *Step 
 		}
 		x.VID = docIdentity(dc, fam)
 		x.Inj = true
+		if !yaml && dc.Out != nil {
+			x.Doc = jsonOfDoc(dc.Out, 0)
+		}
 	}
 	st.X = x
 	return st
+}
+
+// pathDependence: ONE matcher with several paths is applied left to right on the evolving
+// document: replacing an earlier path changes whether a later one exists.
+func pathDependence() []*Scenario {
+	type hc struct {
+		doc     string
+		paths   []string
+		ph      string
+		eomp    bool
+		fail    [][2]string
+		stored  string
+	}
+	cases := []hc{
+		{`{"user":{"name":"x"},"b":1}`, []string{"user", "user.name"}, `"<Any value>"`, true, [][2]string{{"Any", "user.name"}}, ""},
+		{`{"items":[1,2,3],"b":1}`, []string{"items", "items.2"}, `"<Any value>"`, true, [][2]string{{"Any", "items.2"}}, ""},
+		{`{"user":{"name":"x"},"b":1}`, []string{"user.name", "user"}, `"<Any value>"`, true, nil, `{"user":"<Any value>","b":1}`},
+		{`{"a":1,"b":2}`, []string{"a", "a.k"}, `{"k":"v"}`, false, nil, `{"a":{"k":{"k":"v"}},"b":2}`},
+		{`{"a":1,"b":2}`, []string{"a.k", "a"}, `{"k":"v"}`, false, nil, `{"a":{"k":"v"},"b":2}`},
+		{`{"user":{"name":"x"},"b":1}`, []string{"user", "user.name"}, `"<Any value>"`, false, nil, `{"user":"<Any value>","b":1}`},
+	}
+	var scs []*Scenario
+	for i, h := range cases {
+		for _, api := range []string{"json", "sjson"} {
+			sc := &Scenario{ID: fmt.Sprintf("pd%d%s", i, api), Configs: stdConfigs(), Program: []string{"TestA"}}
+			x := &Expect{MFail: h.fail}
+			if h.fail == nil {
+				x = &Expect{VID: fmt.Sprintf("pd:%d", i), Inj: true, Doc: h.stored}
+			}
+			m := &Matcher{M: "any", Paths: h.paths, HasPH: true, Placeholder: json.RawMessage(h.ph), EOMP: bp(h.eomp)}
+			sc.Procs = append(sc.Procs, &Proc{Spec: procSpec("default"), Steps: []*Step{{Op: "begin", Name: "TestA"},
+				{Op: "match", Name: "TestA", API: api, Cfg: "c", Val: bytesVal(h.doc), Matchers: []*Matcher{m}, X: x}, {Op: "end", Name: "TestA"}}})
+			sc.Note = fmt.Sprintf("Any(%v).Placeholder(%s).ErrOnMissingPath(%v) on %s via %s", h.paths, h.ph, h.eomp, h.doc, api)
+			sc.Tags = []string{"also:C15"}
+			scs = append(scs, sc)
+		}
+	}
+	return scs
 }
 
 // docsEntryPoints: every case through MatchJSON / MatchStandaloneJSON / MatchYAML with []byte
@@ -598,6 +639,10 @@ func (c *CheckCtx) docsEntryPoints(cases []*docCase, prop string) error {
 		steps := []*Step{{Op: "begin", Name: "TestA"}, docStep(dc, api, "c", form, i%3), docStep(&docCase{D: dc.D, Out: dc.D}, api, "c", "str", 0), {Op: "end", Name: "TestA"}}
 		sc.Procs = append(sc.Procs, &Proc{Spec: procSpec(mode), Steps: steps})
 		sc.Note = fmt.Sprintf("entry point %s mode=%s doc=%v matchers=%d failing=%d", api, mode, dc.D, len(dc.MS), len(dc.Errs))
+		scs = append(scs, sc)
+		c.nontrivial(sc.Note)
+	}
+	for _, sc := range pathDependence() {
 		scs = append(scs, sc)
 		c.nontrivial(sc.Note)
 	}
